@@ -61,29 +61,19 @@ unsigned w_len;
  * character would stay inside the block; none of the scanners under test moves backwards, and the bytes
  * before the string are left uninitialised (arbitrary).
  * native: a malloc block of exactly length+1 bytes (ASan red zones on both sides). */
-static char *vr_input(unsigned *plen)
+static char *vr_input_build(unsigned *plen, unsigned n, const unsigned char *k, size_t gk, size_t gk2)
 {
-    unsigned n, i;
-    unsigned char k[7];
+    unsigned i;
     char *s;
-#ifdef VERIF_FIXLEN
-    n = VERIF_FIXLEN;
-#else
-    n = (unsigned) VND(uint, len);
     __CPROVER_assume(n <= VERIF_MAXLEN);
-#endif
-    k[0] = (unsigned char) VND(uchar, c0); k[1] = (unsigned char) VND(uchar, c1);
-    k[2] = (unsigned char) VND(uchar, c2); k[3] = (unsigned char) VND(uchar, c3);
-    k[4] = (unsigned char) VND(uchar, c4); k[5] = (unsigned char) VND(uchar, c5);
-    k[6] = (unsigned char) VND(uchar, c6);
 #ifdef VERIF_NATIVE
     s = (char *) malloc(n + 1);
 #else
     s = (char *) __CPROVER_allocate(VERIF_MAXLEN + 1, 0) + (VERIF_MAXLEN - n);
 #endif
     /* ghost indices are arbitrary in every B harness (plain cbmc zero-initialises globals) */
-    vg_k = (size_t) VND(size_t, gk);
-    vg_k2 = (size_t) VND(size_t, gk2);
+    vg_k = gk;
+    vg_k2 = gk2;
     for (i = 0; i < n; i++) {
         __CPROVER_assume(k[i] < 7);
         s[i] = vr_alpha[k[i]];
@@ -95,6 +85,16 @@ static char *vr_input(unsigned *plen)
     *plen = n;
     return s;
 }
+/* VR_INPUT(in, n): declares `char *in; unsigned n;` in the harness.  The named inputs must be taken in the
+ * harness function itself (the driver's witness extraction reads vnd_* assignments of function harness). */
+#define VR_INPUT(in, n) \
+    unsigned n; \
+    unsigned vr_len_ = (unsigned) VND(uint, len); \
+    unsigned char vr_k_[7] = { (unsigned char) VND(uchar, c0), (unsigned char) VND(uchar, c1), (unsigned char) VND(uchar, c2), \
+                               (unsigned char) VND(uchar, c3), (unsigned char) VND(uchar, c4), (unsigned char) VND(uchar, c5), \
+                               (unsigned char) VND(uchar, c6) }; \
+    size_t vr_gk_ = (size_t) VND(size_t, gk), vr_gk2_ = (size_t) VND(size_t, gk2); \
+    char *in = vr_input_build(&n, vr_len_, vr_k_, vr_gk_, vr_gk2_)
 
 static int vr_isspace(char c) { return c == ' ' || (c >= '\t' && c <= '\r'); }
 
